@@ -20,3 +20,4 @@ PROPERTY NoOrphans
 PROPERTY PointsOnlyAppearOnRequest
 PROPERTY SetQuarterLocal
 PROPERTY QuarterTableOnlyBySetQuarter
+PROPERTY RefinesLocal
